@@ -788,10 +788,10 @@ class EventSource(object):
                     # may need to update retry timer here
                     continue
 
-            field = field.decode('UTF-8')
+            field = field.decode('UTF-8', 'replace')  # invalid bytes become U+FFFD
             if value and value[0:1] == b' ':
                 del value[0]
-            value = value.decode('UTF-8')
+            value = value.decode('UTF-8', 'replace')
 
             if field == u'event':
                 ename = value
@@ -856,7 +856,7 @@ class EventSource(object):
             bom = next(bomParser)
             if bom is not None:
                 bomParser.close()  # close generator
-                self.bom = bom.decode('UTF-8')
+                self.bom = bom.decode('UTF-8', 'replace')
                 break
 
             if self.closed:  # no more data so finish
